@@ -607,6 +607,10 @@ func (c *VirtualTable) Insert(ctx context.Context, values map[int]interface{}) (
 	}
 	var key interface{}
 	if c.usesRowID {
+		if values[c.KeyCol] != nil {
+			// the key of a table without PRIMARY KEY is generated
+			return 0, errors.New("_rowid_ cannot be assigned")
+		}
 		r, err := ksuid.NewRandomWithTime(t)
 		if err != nil {
 			return 0, fmt.Errorf("ksuid: %w", err)
